@@ -85,7 +85,7 @@ func (o Op) String() string {
 
 func Alphabet(full bool) []Op {
 	ops := []Op{{Kind: "save", N: 1, Size: 7}, {Kind: "save", N: 2, Size: 500}, {Kind: "save", N: 1, Size: 513, Bump: true}, {Kind: "save", N: 1, Size: 0},
-		{Kind: "overwrite", Size: 8}, {Kind: "overwrite2", Size: 7}, {Kind: "commit"}, {Kind: "snap"}, {Kind: "reopen"}}
+		{Kind: "overwrite", Size: 8}, {Kind: "overwrite2", Size: 7}, {Kind: "commit"}, {Kind: "vote"}, {Kind: "term"}, {Kind: "snap"}, {Kind: "reopen"}}
 	if full {
 		ops = append(ops, Op{Kind: "save", N: 1, Size: 8}, Op{Kind: "sync"}, Op{Kind: "release"}, Op{Kind: "save", N: 3, Size: 200})
 	}
@@ -115,6 +115,8 @@ type run struct {
 	commit        uint64
 	cur           string
 	lastSavedTerm uint64
+	lastSavedVote uint64
+	vote          uint64
 	tmpSynced     int
 }
 
@@ -200,7 +202,7 @@ func payload(size int, seed byte) []byte {
 func Execute(dir string, hist []Op, optFsync bool) (obs []Obs, recs []Rec, err error) {
 	os.RemoveAll(dir)
 	os.MkdirAll(filepath.Dir(dir), 0o755)
-	r := &run{dir: dir, synced: map[string]int{}, optFsync: optFsync, term: 1}
+	r := &run{dir: dir, synced: map[string]int{}, optFsync: optFsync, term: 1, vote: 1}
 	fileutil.VerifSyncHook = r.hook
 	defer func() { fileutil.VerifSyncHook = nil }()
 	r.cur = "create"
@@ -229,10 +231,18 @@ func Execute(dir string, hist []Op, optFsync bool) (obs []Obs, recs []Rec, err e
 	for i, op := range hist {
 		r.cur = fmt.Sprintf("#%d %s", i, op)
 		switch op.Kind {
-		case "save", "overwrite", "overwrite2", "commit":
+		case "save", "overwrite", "overwrite2", "commit", "vote", "term":
 			var ents []raftpb.Entry
-			st := raftpb.HardState{Term: r.term, Vote: 1, Commit: r.commit}
+			st := raftpb.HardState{Term: r.term, Vote: r.vote, Commit: r.commit}
 			switch op.Kind {
+			case "vote":
+				// a vote granted in the current term: a hard state alone, only Vote differs
+				r.vote = r.vote%3 + 1
+				st.Vote = r.vote
+			case "term":
+				// a higher term learnt from a message: a hard state alone, only Term differs
+				r.term++
+				st.Term = r.term
 			case "save":
 				if op.Bump {
 					r.term++
@@ -269,15 +279,16 @@ func Execute(dir string, hist []Op, optFsync bool) (obs []Obs, recs []Rec, err e
 				r.recs = append(r.recs, Rec{Kind: "entry", Entry: e})
 			}
 			r.recs = append(r.recs, Rec{Kind: "state", State: st})
-			prevTerm := r.lastSavedTerm
+			prevTerm, prevVote := r.lastSavedTerm, r.lastSavedVote
 			if err := r.w.Save(st, ents); err != nil {
 				return r.obs, r.recs, err
 			}
-			r.lastSavedTerm = st.Term
+			r.lastSavedTerm, r.lastSavedVote = st.Term, st.Vote
 			// the WAL's contract (independent of which syncs the code happened to issue):
 			// default mode: a Save with entries or a term/vote change is durable on return;
 			// optimized mode: only a term/vote change forces the sync
-			if (!optFsync && (len(ents) > 0 || st.Term != prevTerm)) || (optFsync && st.Term != prevTerm) {
+			changed := st.Term != prevTerm || st.Vote != prevVote
+			if (!optFsync && (len(ents) > 0 || changed)) || (optFsync && changed) {
 				r.durable = len(r.recs)
 			}
 		case "snap":
